@@ -261,6 +261,7 @@ def run(ctx):
     do(ctx, 'expr', [1, [6, [0, [0, X]], [0, [1, cfrac(2), Zs]]]], nontrivial='w1', sample=True)
     do(ctx, 'expr', [1, [4, [0, [0, X]], [0, [0, Zs]]]], nontrivial='w2')
     do(ctx, 'trace', [2, [0, [[0, 0, 0, 0], 2]]], nontrivial='w3')
+    do(ctx, 'expr', [1, [6, [5, [0, [0, X]], [0, [0, X]]], [0, [0, Zs]]]], nontrivial='w4')      # (X - X) @ Z : empty polynomial in a product
     kinds_all = ['pauli', 'pauli', 'mono', 'poly', 'poly', 'list', 'num']
     for it in range(int(700 * B)):
         n = rng.randint(1, 3) if rng.random() < 0.8 else rng.randint(4, 7)
